@@ -45,6 +45,41 @@ def _is_call_named(name, head=None):
     return pred
 
 
+def sender_parts(facts):
+    """Which component of what Data::sender() returns is the channel sender and which is the state: (['#0'], ['#1']) for the
+    pair, the field names for a record.  Found by type."""
+    snd = facts.one(A.AD_DATA + "::sender")
+    ty = snd.locals[0]["ty"]
+    comps = []
+    if ty.startswith("("):
+        depth = 0
+        cur = ""
+        for ch in ty[1:-1]:
+            if ch in "<([":
+                depth += 1
+            elif ch in ">)]":
+                depth -= 1
+            if ch == "," and depth == 0:
+                comps.append(cur.strip())
+                cur = ""
+            else:
+                cur += ch
+        if cur.strip():
+            comps.append(cur.strip())
+        comps = [("#%d" % i, c) for i, c in enumerate(comps)]
+    else:
+        head = ty.split("<", 1)[0]
+        adt = facts.adts.get(head)
+        if adt is None or len(adt["variants"]) != 1:
+            raise AnchorError("Data::sender returns %s: neither a tuple nor a record of the crate" % ty)
+        comps = [(f["name"], f["ty"]) for f in adt["variants"][0]["fields"]]
+    tx = [n for n, c in comps if "mpsc::Sender<" in c]
+    st = [n for n, c in comps if c.split("<", 1)[0] == A.AD_INNER]
+    if len(tx) != 1 or len(st) != 1:
+        raise AnchorError("Data::sender returns %s: expected one channel sender and one state" % ty)
+    return [tx[0]], [st[0]]
+
+
 def table(facts, parallel):
     """List of (family, id, body, [(label, Src, names, expect)])."""
     T = []
@@ -97,7 +132,7 @@ def table(facts, parallel):
     add(RUN, "<T as RunNow>::run_now", blanket(facts, A.T_RUNNOW, "run_now"), [("self", Src(SELF, []), {"run"}, once)])
     if parallel:
         add(RUN, "AsyncDispatcher::dispatch", inh(facts, A.AD, "dispatch"), [
-            ("stages", Src(_is_call_named("sender"), ["#1", "stages"]), {"execute"}, once),
+            ("stages", Src(_is_call_named("sender"), sender_parts(facts)[1] + ["stages"]), {"execute"}, once),
             ("thread_local", Src(SELF, ["thread_local"]), LIFECYCLE[RUN], never)])
         add(RUN, "AsyncDispatcher::wait", inh(facts, A.AD, "wait"), [("thread_local", Src(SELF, ["thread_local"]), {"run_now"}, once)])
         add(RUN, "ParSeq::dispatch", inh(facts, A.PARSEQ, "dispatch"), [("run", Src(SELF, ["run"]), {"run"}, once)])
@@ -224,7 +259,18 @@ def carrier_inventory(ctx, report, rule, facts, config):
     carriers = set(known)
     marks = ["RunNow<", "RunNow ", "RunNow+", "dyn for<'a> " + A.T_RUNNOW]
     n = 0
+    # a private record that no other type of the crate stores (what a function hands to its caller and is taken apart
+    # there) keeps no system anywhere: it is not a place where one could be forgotten
+    stored = set()
+    for path2, adt2 in facts.adts.items():
+        for v2 in adt2["variants"]:
+            for f2 in v2["fields"]:
+                for path3 in facts.adts:
+                    if path3 != path2 and (path3 + "<" in f2["ty"] or f2["ty"] == path3 or f2["ty"].endswith(path3) or (path3 + ">") in f2["ty"] or (path3 + ",") in f2["ty"]):
+                        stored.add(path3)
     for path, adt in sorted(facts.adts.items()):
+        if path not in known and path not in stored and not adt.get("pub") and str(adt.get("kind", "")).lower() == "struct":
+            continue
         for v in adt["variants"]:
             for f in v["fields"]:
                 ty = f["ty"]
